@@ -36,11 +36,11 @@ def k5_phase_for(pid):
     return phase
 
 
-def run(pid, tier, k3_programs=None):
+def run(pid, tier, k3_programs=None, extra_props=()):
     res = C.Result(pid, tier)
     known = [k for k in C.load_known().get("findings", []) if pid in k.get("properties", [k.get("property")])]
     with C.Lock():
-        lean_ok, names = C.lean_phase(res, pid, gen_fn=None)
+        lean_ok, names = C.lean_phase(res, pid, gen_fn=None, extra_props=extra_props)
     out = k5.explore(tier, C.seed())
     for b in out["build_errors"]:
         res.add_broken("K5 harness does not compile against /repo (%s)" % b["config"], b["log"])
